@@ -391,8 +391,30 @@ by `treeEquiv`; everything else is left to the numeric oracle -/
 def checkRealImag (e re im : Expr) : Bool :=
   realTree re && realTree im && treeEquiv (recombine re im) e
 
+mutual
+  /-- numbers, constants, sums, products and integer powers only: on such inputs `re + I*im = e` is
+  decided by the normaliser, so a failed value check is a genuine failure -/
+  def arithOnly : Expr → Bool
+    | .int _ => true
+    | .rat _ _ => true
+    | .cplx _ _ => true
+    | .const _ => true
+    | .add c ts => arithOnly c && arithOnlyPairs ts
+    | .mul c fs => arithOnly c && arithOnlyFacs fs
+    | .pow b e => (intLit? e).isSome && arithOnly b
+    | _ => false
+  def arithOnlyPairs : List (Expr × Expr) → Bool
+    | [] => true
+    | (k, v) :: t => arithOnly k && arithOnly v && arithOnlyPairs t
+  def arithOnlyFacs : List (Expr × Expr) → Bool
+    | [] => true
+    | (b, e) :: t => (intLit? e).isSome && arithOnly b && arithOnlyFacs t
+end
+
 def judgeRealImag (e re im : Expr) : String :=
   if checkRealImag e re im then "ok"
+  else if realTree re && realTree im && arithOnly e && arithOnly re && arithOnly im then
+    "FAIL:value-differs"
   else if !realTree re then "SKIP:re-not-syntactically-real"
   else if !realTree im then "SKIP:im-not-syntactically-real"
   else "SKIP:value-needs-function-identities"
